@@ -160,7 +160,12 @@ impl InlineInstruction {
         collector.push(')');
       }
       Self::Cast { pointer_type, value } => {
-        collector.push_str("(ref.cast (ref $");
+        // i31 is a builtin heap type, everything else is a declared type name.
+        collector.push_str(if matches!(pointer_type, lir::Type::Int31) {
+          "(ref.cast (ref "
+        } else {
+          "(ref.cast (ref $"
+        });
         pointer_type.pretty_print(collector, heap, table);
         collector.push_str(") ");
         value.pretty_print(collector, heap, table);
